@@ -12,10 +12,11 @@ Qed.
 
 Lemma reseed_none : forall p q, reseed (fun _ => false) p q = init p.
 Proof.
-  induction p as [n|l|s p IH|p1 IH1 p2 IH2|id g p1 IH1 p2 IH2|id le p1 IH1 p2 IH2]; intros q; cbn [reseed init]; auto;
-    try (destruct q; reflexivity).
-  - destruct q; auto. rewrite IH. reflexivity.
-  - destruct q; auto. rewrite IH1, IH2. reflexivity.
+  (* no constructor names: the pipe type grows (PCross, PMerge, PThrough ...); reseed treats everything but
+     stages and concatenation by its default branch *)
+  induction p; intros q; cbn [reseed init]; auto; try (destruct q; reflexivity);
+    destruct q; auto;
+    repeat match goal with H : forall q, reseed _ ?p q = init ?p |- _ => rewrite H; clear H end; reflexivity.
 Qed.
 
 (* every traversal of a list value, after any number of earlier traversals by any consumers (complete ones,
